@@ -382,8 +382,76 @@ def check_e2e(case):
     return res
 
 
+# ------------------------------------------------------------------ user force field end to end
+@st.composite
+def userff_e2e_case(draw):
+    from .. import e2e
+
+    desc = draw(e2e.structure(max_chains=2, nmax=4, contact=False, variants=0.2))
+    return dict(part="userff-e2e", desc=desc, base=draw(st.sampled_from(ffmodel.FFS)),
+                dr=[draw(st.sampled_from([0.0123, 0.25, 0.5, 0.0007])) for _ in range(2)],
+                opts=draw(st.sampled_from([[], ["--noopt"], ["--whitespace"]])))  # fmt: skip
+
+
+def check_userff_e2e(case):
+    """--userff/--usernames: a built-in parameter file with every radius shifted by a drawn amount
+    (charges untouched, so totals stay integral) and its names file; two different shifts are run
+    one after the other in the same process under the same file names."""
+    from .. import build, colfmt, e2e
+
+    res = Result()
+    desc, base = case["desc"], case["base"]
+    e2e.normalise(desc, case["opts"])
+    s = build.materialise(desc)
+    d = topo.dat_dir()
+    names_text = (d / f"{base}.names").read_text(encoding="utf-8")
+    dat_text = (d / f"{base}.DAT").read_text(encoding="utf-8")
+    res.label(f"base={base}")
+    for k, dr in enumerate(case["dr"]):
+        rows = []
+        for ln in dat_text.splitlines():
+            f = ln.split()
+            if ln.startswith("#") or len(f) < 4:
+                rows.append(ln)
+                continue
+            rows.append("\t".join([f[0], f[1], f[2], f"{float(f[3]) + dr:.4f}"] + f[4:5]))
+        udat = "\n".join(rows) + "\n"
+        r = pipeline.run(s.text(), ["--userff=@DIR@/u.dat", "--usernames=@DIR@/u.names", "--keep-chain", *case["opts"]],
+                         extra_files={"u.dat": udat, "u.names": names_text})  # fmt: skip
+        if not r.ok:
+            res.label("run-failed")
+            continue
+        model = ffmodel.resolve_text(udat, names_text, tuple(ffmodel.universe()))
+        A = e2e.analyse(desc, base, case["opts"], s, r)
+        if A.pairs is None:
+            continue
+        for ln, a in A.pairs:
+            state = getattr(a.residue, "ffname", None) or a.residue.name
+            if state in ("HOH",):
+                state = "WAT"
+            e = model.get(state, {}).get(a.name)
+            if e is None:
+                res.bad("C01:userff-e2e:borrowed", f"user file (from {base}, radii +{dr}) has no entry for {state} {a.name}, yet written q={ln['q']} r={ln['r']}")
+                break
+            if abs(ln["q"] - e[0]) > 5.1e-5 or abs(ln["r"] - e[1]) > 5.1e-5:
+                builtin = ffmodel.lookup(base, state, a.name)
+                which = "the BUILT-IN value" if builtin and abs(ln["r"] - builtin[1]) < 5.1e-5 else (
+                    "the value of the PREVIOUS user file" if k == 1 and abs(ln["r"] - (e[1] - dr + case["dr"][0])) < 5.1e-5 else "another value")
+                res.bad("C01:userff-e2e:value", f"{state} {a.name}: written r={ln['r']} q={ln['q']}, the user file gives {e[1]} {e[0]} "
+                        f"({which}; run {k + 1} of 2 in this process)")  # fmt: skip
+                break
+        for entry in A.residues:
+            state = getattr(entry["obj"], "ffname", None) or entry["obj"].name
+            for name, a in entry["atoms"].items():
+                if id(a) in A.missing_ids and model.get("WAT" if state == "HOH" else state, {}).get(name) is not None:
+                    res.bad("C01:userff-e2e:not-written", f"{state} {name}: the user file defines it but the atom is reported unassigned")
+    res.nontrivial = True
+    return res
+
+
 def parts(tier):
     return [
+        Part("userff-e2e", check_userff_e2e, strategy=userff_e2e_case(), budget=dict(quick=160, thorough=3000)),
         Part("table", check_table, cases=table_cases, exhaustive=True),
         Part("userff", check_userff, strategy=userff_case(), budget=dict(quick=400, thorough=5000)),
         Part("e2e", check_e2e, strategy=e2e_case(), budget=dict(quick=480, thorough=10000)),
